@@ -5,6 +5,7 @@
 #[macro_use]
 pub mod macros;
 pub mod stubs;
+pub mod contracts;
 pub mod vlock;
 pub mod vleaf;
 pub mod dialect_rt;
